@@ -17,8 +17,9 @@ Require Import MTX.Lib.IntWrap MTX.Model.C23_RtpH264.
 Import ListNotations.
 Local Open Scope Z_scope.
 
-(* the result of an encoder call as the glue wants it: inl (Ok _) | inl Panic | inr tt (error returned) *)
-Notation eres := (res (list packet * enc) + unit)%type (only parsing).
+(* the result of an encoder call as the glue wants it: inl (Ok _) | inl Panic | inr e' (an error was returned;
+   e' = the encoder afterwards: batches written before the failing one have consumed sequence numbers) *)
+Notation eres := (res (list packet * enc) + enc)%type (only parsing).
 
 (* ------------------------------------------------------------------ encoder *)
 
@@ -76,7 +77,7 @@ Definition agg5_payload (nalus : list bytes) : bytes :=
 
 (* writeAggregationUnit: "invalid NALU" when one of them is shorter than two bytes *)
 Definition write_aggregated5 (e : enc) (nalus : list bytes) (marker : bool) : eres :=
-  if existsb (fun n => blen n <? 2) nalus then inr tt
+  if existsb (fun n => blen n <? 2) nalus then inr e
   else inl (Ok ([mkpkt e.(e_seq) 0 marker e.(e_ssrc) (agg5_payload nalus)], bump e)).
 
 Definition write_batch5 (e : enc) (nalus : list bytes) (marker : bool) : eres :=
